@@ -8,7 +8,9 @@
            core/task/match.go (wants.InboundChannels = MergeInbound(role, class)),
            core/task/scheduler.go makeTaskForMesosResources (the loop that fills Task.localBindMap),
            core/task/manager.go configureTasks (environment bind map, global-alias de-duplication),
-           core/task/task.go BuildPropertyMap (channel part), tasks.go BuildPropertyMaps.
+           core/task/task.go BuildPropertyMap (channel part AND the whole property map: common
+             properties, the template's `properties:` block, then the generated channel keys),
+           tasks.go BuildPropertyMaps.
 
   Everything is a total function over lists and strings; Go maps are association
   lists with first-match lookup and overwrite-in-place (`Assoc.get` / `Assoc.set`).
@@ -40,13 +42,24 @@ def Transport.parse? : String → Option Transport
 def Addressing.parse? : String → Option Addressing
   | "" => some .tcp | "tcp" => some .tcp | "ipc" => some .ipc | _ => none
 
-/-- `channel.Inbound` (fields that matter for addressing). -/
+/-- The fields of `channel.Channel` that play no part in addressing but are copied into the
+    channel's FairMQ keys: `type`, `sndBufSize`, `rcvBufSize`, `rateLogging` (defaults of
+    `Channel.UnmarshalYAML`: 1000 / 1000 / "0"). -/
+structure Misc where
+  type : String := "push"
+  snd : Nat := 1000
+  rcv : Nat := 1000
+  rate : String := "0"
+  deriving DecidableEq, Repr, Inhabited
+
+/-- `channel.Inbound`. -/
 structure Inbound where
   name : String
   transport : Transport
   addressing : Addressing
   target : String
   global : String
+  misc : Misc := {}
   deriving DecidableEq, Repr, Inhabited
 
 /-- `channel.Outbound`. -/
@@ -54,7 +67,44 @@ structure Outbound where
   name : String
   transport : Transport
   target : String
+  misc : Misc := {}
   deriving DecidableEq, Repr, Inhabited
+
+/-! ## keys of the CONFIGURE property map
+
+  The property map an executor receives is a `map[string]string`. Its keys are kept structured
+  here — `chans.<name>.0.<field>`, `chans.<name>.numSockets`, anything else — so that "the key of
+  another channel / another field" is a constructor fact and not a fact about string
+  concatenation; `Key.render` gives the text (the Driver parses the text back, `Key.parse`). -/
+
+/-- The per-socket keys `Inbound/Outbound.buildFMQMap` write. -/
+inductive Field where
+  | address | method | autoBind | rateLogging | rcvBufSize | rcvKernelSize
+  | sndBufSize | sndKernelSize | transport | type
+  deriving DecidableEq, Repr, Inhabited
+
+def Field.name : Field → String
+  | .address => "address" | .method => "method" | .autoBind => "autoBind" | .rateLogging => "rateLogging"
+  | .rcvBufSize => "rcvBufSize" | .rcvKernelSize => "rcvKernelSize" | .sndBufSize => "sndBufSize"
+  | .sndKernelSize => "sndKernelSize" | .transport => "transport" | .type => "type"
+
+def Field.all : List Field :=
+  [.address, .method, .autoBind, .rateLogging, .rcvBufSize, .rcvKernelSize, .sndBufSize, .sndKernelSize,
+   .transport, .type]
+
+inductive Key where
+  | chan (name : String) (f : Field)   -- `chans.<name>.0.<field>`
+  | sockets (name : String)            -- `chans.<name>.numSockets`
+  | other (k : String)                 -- every other key, verbatim
+  deriving DecidableEq, Repr, Inhabited
+
+def Key.render : Key → String
+  | .chan n f => "chans." ++ n ++ ".0." ++ f.name
+  | .sockets n => "chans." ++ n ++ ".numSockets"
+  | .other k => k
+
+/-- `controlcommands.PropertyMap`. -/
+abbrev PMap := List (Key × String)
 
 /-- `MergeInbound` / `MergeOutbound` as written: start from the high-priority
     list, append every low-priority entry whose name is not yet present in the
@@ -79,6 +129,8 @@ inductive Forest where
 structure Class where
   bind : List Inbound
   connect : List Outbound
+  /-- the template's `properties:` block (`Class.Properties`), keys distinct (a YAML mapping) -/
+  props : PMap := []
   deriving Repr, Inhabited
 
 /-- `Class.UnmarshalYAML`: "task template outbound channel definition has a
@@ -185,6 +237,9 @@ structure Task where
   outbound : List Outbound
   /-- `Task.localBindMap` -/
   loc : BindMap
+  /-- `Task.GetProperties()`: the task template's `properties:` block (`newTaskForMesosOffer` wraps
+      an empty map around `Class.Properties`; roles cannot declare properties) -/
+  props : PMap := []
   deriving Repr, Inhabited
 
 /-! ## CONFIGURE: the environment bind map (manager.go, configureTasks) -/
@@ -331,18 +386,26 @@ def aliasScan : List (String × String) → List Inbound → Bool
 
 def redefines (t : Task) : Bool := aliasScan [] t.inbound
 
-/-- Which checks configureTasks performs. -/
+/-- Which checks configureTasks performs, and in which order BuildPropertyMap fills the map. -/
 structure Cfg where
   /-- two inbound channels of ONE task naming one global alias are rejected (`aliasScan`) -/
   aliasPerTask : Bool
+  /-- BuildPropertyMap copies the task's declared properties into the map BEFORE it appends the
+      generated FairMQ channel configuration, so a generated key always wins over a declared one
+      (`false`: declared properties copied last — they would replace generated keys) -/
+  generatedLast : Bool := true
   deriving DecidableEq, Repr, Inhabited
 
 /-- The code as it is. -/
-def codeCfg : Cfg := { aliasPerTask := true }
+def codeCfg : Cfg := { aliasPerTask := true, generatedLast := true }
 
 /-- The code as it was before `fix: configureTasks rejects a global channel alias claimed by two
     inbound channels of one task`: aliases are de-duplicated across local bind maps only. -/
-def legacyCfg : Cfg := { aliasPerTask := false }
+def legacyCfg : Cfg := { aliasPerTask := false, generatedLast := true }
+
+/-- NOT the code: the declared properties are copied after the channel configuration. Kept to
+    state what the order of the two steps is worth (`C13_declared_last_breaks_wiring`). -/
+def declaredLastCfg : Cfg := { aliasPerTask := true, generatedLast := false }
 
 /-- configureTasks up to the point where the CONFIGURE command is queued. The per-task check
     and the alias de-duplication of the bind-map loop alternate task by task in the code; both
@@ -353,6 +416,104 @@ def configureWith (cfg : Cfg) (tasks : List Task) : Except Err (List Props) :=
 
 /-- The code as it is. -/
 def configure (tasks : List Task) : Except Err (List Props) := configureWith codeCfg tasks
+
+/-! ## CONFIGURE: the whole property map of each task (task.go, BuildPropertyMap)
+
+  `propMap` starts with the common properties (`environment_id`), then — in the code as it is —
+  `for k, v := range t.GetProperties() { propMap[k] = v }`, then for every inbound channel whose
+  `ToFMQMap` succeeds and for every outbound channel `for k, v := range chanProps { propMap[k] = v }`.
+  (`orbit-reset-time` is pushed only if the variable `pdp_override_run_start_time` is set; the
+  template pass `fields.Execute` leaves values without `{{ }}` alone: both are parameters that the
+  correspondence run keeps switched off.) -/
+
+/-- The value `buildFMQMap` writes for each field of a channel. -/
+def fieldVal (m : Misc) (e : Entry) : Field → String
+  | .address => e.address
+  | .method => e.method.name
+  | .autoBind => "0"
+  | .rateLogging => m.rate
+  | .rcvBufSize => toString m.rcv
+  | .rcvKernelSize => "0"
+  | .sndBufSize => toString m.snd
+  | .sndKernelSize => "0"
+  | .transport => e.transport.name
+  | .type => m.type
+
+/-- Which fields: `autoBind` is written by `Inbound.buildFMQMap` only. -/
+def fieldsOf : Method → List Field
+  | .bind => [.address, .method, .autoBind, .rateLogging, .rcvBufSize, .rcvKernelSize, .sndBufSize,
+              .sndKernelSize, .transport, .type]
+  | .connect => [.address, .method, .rateLogging, .rcvBufSize, .rcvKernelSize, .sndBufSize,
+                 .sndKernelSize, .transport, .type]
+
+/-- `Inbound/Outbound.buildFMQMap`: `chans.<n>.numSockets = 1` and the per-socket keys. -/
+def fmqMap (n : String) (m : Misc) (e : Entry) : PMap :=
+  (.sockets n, "1") :: (fieldsOf e.method).map fun f => (.chan n f, fieldVal m e f)
+
+/-- `for k, v := range kvs { propMap[k] = v }` (keys of one Go map are distinct: order irrelevant). -/
+def setAll (pm kvs : PMap) : PMap := kvs.foldl (fun a kv => Assoc.set a kv.1 kv.2) pm
+
+/-- The inbound loop of BuildPropertyMap on the property map itself. -/
+def addInP (loc : BindMap) : PMap → List Inbound → PMap
+  | pm, [] => pm
+  | pm, c :: cs =>
+      match inboundFMQ loc c with
+      | some e => addInP loc (setAll pm (fmqMap c.name c.misc e)) cs
+      | none => addInP loc pm cs
+
+/-- The outbound loop of BuildPropertyMap on the property map itself. -/
+def addOutP (bm : BindMap) : PMap → List Outbound → Except Err PMap
+  | pm, [] => .ok pm
+  | pm, o :: os =>
+      match outboundFMQ bm o with
+      | .error e => .error e
+      | .ok en => addOutP bm (setAll pm (fmqMap o.name o.misc en)) os
+
+/-- `fillCommonProperties`; the environment id is renamed `%env` in the observation. -/
+def baseProps : PMap := [(.other "environment_id", "%env")]
+
+/-- `Task.BuildPropertyMap(bindMap)` for a FAIRMQ / DIRECT task. -/
+def buildPMap (cfg : Cfg) (bm : BindMap) (t : Task) : Except Err PMap :=
+  let pm0 := if cfg.generatedLast then setAll baseProps t.props else baseProps
+  match addOutP bm (addInP t.loc pm0 t.inbound) t.outbound with
+  | .error e => .error e
+  | .ok pm => .ok (if cfg.generatedLast then pm else setAll pm t.props)
+
+def wireP (cfg : Cfg) (tasks : List Task) : Except Err (List PMap) :=
+  match build [] (claims tasks) with
+  | .error e => .error e
+  | .ok bm => mapE (buildPMap cfg bm) tasks
+
+/-- configureTasks up to the CONFIGURE command, with the whole property map per task. -/
+def configurePWith (cfg : Cfg) (tasks : List Task) : Except Err (List PMap) :=
+  if cfg.aliasPerTask && tasks.any redefines then .error .aliasConflict else wireP cfg tasks
+
+/-- The code as it is: what the Driver prints and the correspondence run compares. -/
+def configureP (tasks : List Task) : Except Err (List PMap) := configurePWith codeCfg tasks
+
+/-- The generated channel keys of one task, in the order they are written (independent of the
+    task's declared properties by construction). -/
+def inKVs (loc : BindMap) : List Inbound → PMap
+  | [] => []
+  | c :: cs =>
+      match inboundFMQ loc c with
+      | some e => fmqMap c.name c.misc e ++ inKVs loc cs
+      | none => inKVs loc cs
+
+def outKVs (bm : BindMap) : List Outbound → Except Err PMap
+  | [] => .ok []
+  | o :: os =>
+      match outboundFMQ bm o with
+      | .error e => .error e
+      | .ok en =>
+          match outKVs bm os with
+          | .error e => .error e
+          | .ok r => .ok (fmqMap o.name o.misc en ++ r)
+
+def genKVs (bm loc : BindMap) (inb : List Inbound) (out : List Outbound) : Except Err PMap :=
+  match outKVs bm out with
+  | .error e => .error e
+  | .ok r => .ok (inKVs loc inb ++ r)
 
 /-! ## workflow templates: iterators and per-instance resolution
 
@@ -422,6 +583,7 @@ structure OutT where
   name : String
   transport : Transport
   target : Tmpl
+  misc : Misc := {}
   deriving DecidableEq, Repr, Inhabited
 
 /-- A `bind` declaration as written in a workflow template (only `global` is templated). -/
@@ -431,15 +593,16 @@ structure InT where
   addressing : Addressing
   target : String
   global : Tmpl
+  misc : Misc := {}
   deriving DecidableEq, Repr, Inhabited
 
 /-- The declaration a role holds once its own copy has been resolved in its own context. -/
 def OutT.inst (c : Ctx) (o : OutT) : Outbound :=
-  { name := o.name, transport := o.transport, target := o.target.inst c }
+  { name := o.name, transport := o.transport, target := o.target.inst c, misc := o.misc }
 
 def InT.inst (c : Ctx) (b : InT) : Inbound :=
   { name := b.name, transport := b.transport, addressing := b.addressing, target := b.target,
-    global := b.global.inst c }
+    global := b.global.inst c, misc := b.misc }
 
 /-- Role templates: like `Forest`, with templated names / targets / aliases, plus
     iterator roles (`for:` over a list of values around ONE role template). -/
@@ -524,9 +687,11 @@ def ownDecls : Forest → List (List Inbound × List Outbound)
   | .task _ _ _ b c next => (b, c) :: ownDecls next
 
 /-- A plain (already resolved) declaration / role tree seen as a template. -/
-def Outbound.toT (o : Outbound) : OutT := { name := o.name, transport := o.transport, target := [.lit o.target] }
+def Outbound.toT (o : Outbound) : OutT :=
+  { name := o.name, transport := o.transport, target := [.lit o.target], misc := o.misc }
 def Inbound.toT (b : Inbound) : InT :=
-  { name := b.name, transport := b.transport, addressing := b.addressing, target := b.target, global := [.lit b.global] }
+  { name := b.name, transport := b.transport, addressing := b.addressing, target := b.target,
+    global := [.lit b.global], misc := b.misc }
 
 def Forest.toT : Forest → TForest
   | .nil => .nil
@@ -540,6 +705,6 @@ def mkTask (classes : List (String × Class)) (d : TaskDecl) (path host : String
   { path := path, host := host,
     inbound := mergeIn d.roleBind cls.bind,
     outbound := mergeOut d.roleConnect cls.connectLoaded,
-    loc := loc }
+    loc := loc, props := cls.props }
 
 end Channels
